@@ -779,7 +779,7 @@ func (x *Exec) callByContract(fr *Frame, pc *preparedCall, fc *FuncContract, nam
 			v1 := x.asTerm(x.specEval(env, fc.Decreases.Expr))
 			x.oblige(fr, st, "variant", "recursion@"+site, And(Le(IntLit(0), v0), Lt(v1, v0), Le(IntLit(0), v1)), pc.e)
 		}
-		x.Obls[len(x.Obls)-1].Tag = "C14"
+		x.Obls[len(x.Obls)-1].Tag = "C14,C09" // no hang: also what C09 asks of a request
 	}
 	if x.cur != nil && x.cur.Contract != fc && x.cur.Contract != nil && fr.depth == 0 {
 		// mutual recursion declared by "ghost mutual <callee>": the callee's measure is below the caller's
